@@ -599,6 +599,77 @@ pub fn insert_fillers(f: &mut FileSpec, at: usize, k: usize) {
 }
 
 /// Generate a rich file from a choice sequence.
+pub const LOADER_TAGS: [i64; 11] = [6, 5, 10, 11, 4, 0x6ffffef5, 0x6ffffff0, 0x6ffffffe, 0x6fffffff, 0x6ffffffc, 0x6ffffffd];
+
+/// Fill in the loader view of a built file: n_load PT_LOAD headers (from index first_load) that cut the file into
+/// consecutive pieces mapped at file offset + bias and are listed in a shuffled order, and the leading LOADER_TAGS
+/// entries of .dynamic with the addresses / sizes / counts of the sections they describe (a tag whose section does
+/// not exist becomes DT_DEBUG). Bytes and the model (phdrs) are patched alike.
+fn patch_loader_view(b: &mut Built, first_load: usize, n_load: usize, bias: u64, seed: u64) {
+    let enc = b.enc();
+    let flen = b.bytes.len() as u64;
+    if b.has_phdrs && first_load + n_load <= b.phdrs.len() && n_load > 0 {
+        let piece = (flen / n_load as u64).max(1);
+        let mut order: Vec<usize> = (0..n_load).collect();
+        let mut s = seed | 1;
+        for i in (1..n_load).rev() {
+            let j = (crate::choice::splitmix(&mut s) % (i as u64 + 1)) as usize;
+            order.swap(i, j);
+        }
+        let pes = phdr_size(enc);
+        for (slot, k) in order.iter().enumerate() {
+            let lo = (*k as u64 * piece).min(flen);
+            let hi = if *k + 1 == n_load { flen } else { ((*k as u64 + 1) * piece).min(flen) };
+            let i = first_load + slot;
+            let h = &mut b.phdrs[i];
+            h.p_offset = lo;
+            h.p_vaddr = lo + bias;
+            h.p_paddr = lo + bias;
+            h.p_filesz = hi - lo;
+            h.p_memsz = hi - lo;
+            let mut w = W::new(enc);
+            h.write(&mut w);
+            let at = b.phoff + i * pes;
+            if at + pes <= b.bytes.len() {
+                b.bytes[at..at + pes].copy_from_slice(&w.buf);
+            }
+        }
+    }
+    let find = |ty: u32| b.shdrs.iter().position(|h| h.sh_type == ty);
+    let Some(i_dyn) = find(SHT_DYNAMIC) else { return };
+    let (dyn_off, dyn_len) = b.body_at[i_dyn];
+    let des = dyn_size(enc);
+    if dyn_len < LOADER_TAGS.len() * des {
+        return;
+    }
+    let addr = |i: usize| b.body_at[i].0 as u64 + bias;
+    let i_sym = find(SHT_DYNSYM);
+    let i_str = i_sym.map(|i| b.shdrs[i].sh_link as usize).filter(|l| *l < b.shdrs.len() && b.shdrs[*l].sh_type == SHT_STRTAB);
+    let vals: [Option<u64>; 11] = [
+        i_sym.map(addr),
+        i_str.map(addr),
+        i_str.map(|i| b.body_at[i].1 as u64),
+        i_sym.map(|_| sym_size(enc) as u64),
+        find(SHT_HASH).map(addr),
+        find(SHT_GNU_HASH).map(addr),
+        find(SHT_GNU_VERSYM).map(addr),
+        find(SHT_GNU_VERNEED).map(addr),
+        find(SHT_GNU_VERNEED).map(|i| b.shdrs[i].sh_info as u64),
+        find(SHT_GNU_VERDEF).map(addr),
+        find(SHT_GNU_VERDEF).map(|i| b.shdrs[i].sh_info as u64),
+    ];
+    for (k, v) in vals.iter().enumerate() {
+        let d = match v {
+            Some(v) => Dyn { d_tag: LOADER_TAGS[k], d_un: *v },
+            None => Dyn { d_tag: 21, d_un: 0 },
+        };
+        let mut w = W::new(enc);
+        d.write(&mut w);
+        let at = dyn_off + k * des;
+        b.bytes[at..at + des].copy_from_slice(&w.buf);
+    }
+}
+
 pub fn rich_file(c: &mut Choice, o: &RichOpts) -> Rich {
     let enc = ALL_ENC[c.below(4) as usize];
     let mut f = FileSpec::new(enc);
@@ -617,6 +688,11 @@ pub fn rich_file(c: &mut Choice, o: &RichOpts) -> Rich {
     let minimal = c.chance(16);
     let mut dyn_names = vec![vec![]];
     let mut sym_names = vec![vec![]];
+    // "loader view": the dynamic table starts with DT_SYMTAB/DT_STRTAB/DT_STRSZ/DT_SYMENT/DT_HASH/DT_GNU_HASH/DT_VERSYM/
+    // DT_VERNEED/DT_VERNEEDNUM/DT_VERDEF/DT_VERDEFNUM whose values are the run-time addresses of the file's own
+    // .dynsym/.dynstr/... under identity-style PT_LOAD segments (patched in once the layout is known): what a
+    // loader, or a parser of a stripped object, goes by. (first PT_LOAD index, count, bias, shuffle seed)
+    let mut lv: Option<(usize, usize, u64, u64)> = None;
     if !minimal {
         f.add_sec(b"", SHT_NULL, vec![]);
         kinds.push(Kind::Null);
@@ -662,7 +738,9 @@ pub fn rich_file(c: &mut Choice, o: &RichOpts) -> Rich {
         }
         // --- versions
         if has(3) {
-            let mut model = refs::gen_version_model(c, 3, 3, 3, dyn_names.len().max(1));
+            // (one file in twenty: as many version records as a large shared library has - up to 30 needed files with up
+            // to 8 versions each and 30 definitions)
+            let mut model = if c.u8() >= 243 { refs::gen_version_model(c, 30, 8, 30, dyn_names.len().max(1)) } else { refs::gen_version_model(c, 3, 3, 3, dyn_names.len().max(1)) };
             model.versym.resize(dyn_names.len(), 1);
             let contiguous = c.bool();
             let s = refs::build_versions(enc, &model, c, contiguous, true);
@@ -798,6 +876,13 @@ pub fn rich_file(c: &mut Choice, o: &RichOpts) -> Rich {
         if has(9) {
             let n = 1 + c.below(6);
             let mut w = W::new(enc);
+            let loader_view = c.u8() >= 176;
+            if loader_view {
+                for t in LOADER_TAGS {
+                    Dyn { d_tag: t, d_un: 0 }.write(&mut w);
+                }
+                lv = Some((0, 0, 0, 0));
+            }
             for _ in 0..n {
                 Dyn { d_tag: *c.pick(&[1i64, 5, 6, 10, 0x6ffffef5, 0x6ffffffe, -1, 0x7fffffff]), d_un: c.val(64) }.write(&mut w);
             }
@@ -933,6 +1018,22 @@ pub fn rich_file(c: &mut Choice, o: &RichOpts) -> Rich {
                 seg.hdr.p_memsz = c.val(24);
             }
             f.segs.push(seg);
+        }
+        if lv.is_some() {
+            if !f.segs.iter().any(|s| s.hdr.p_type == PT_DYNAMIC) || c.bool() {
+                f.segs.push(Seg { hdr: Phdr { p_type: PT_DYNAMIC, p_flags: 6, p_align: 8, p_memsz: 1, ..Default::default() }, covers: i_dynamic });
+            }
+            // usually 1..3 PT_LOAD pieces, rarely as many as a heavily segmented object has; listed in any order
+            let n_load = if c.u8() == 0xD3 { 74 + c.below(70) as usize } else { 1 + c.below(3) as usize };
+            let first_load = f.segs.len();
+            for _ in 0..n_load {
+                f.segs.push(Seg { hdr: Phdr { p_type: PT_LOAD, p_flags: 5, p_align: 0x1000, p_memsz: 1, ..Default::default() }, covers: None });
+            }
+            lv = Some((first_load, n_load, *c.pick(&[0u64, 0, 0x1000, 0x40_0000, 0xffff_0000]), c.u64()));
+            // such objects are often stripped of their section headers
+            if c.u8() >= 128 {
+                f.omit_shdrs = true;
+            }
         }
         if c.chance(20) {
             f.omit_shdrs = true;
@@ -1098,6 +1199,9 @@ pub fn rich_file(c: &mut Choice, o: &RichOpts) -> Rich {
         }
     }
     let mut built = if f.overrides.is_empty() { first } else { build(&f) };
+    if let Some((first_load, n_load, bias, seed)) = lv {
+        patch_loader_view(&mut built, first_load, n_load, bias, seed);
+    }
     // byte-level corruption inside section bodies / anywhere
     let mut corrupted = false;
     if c.chance(o.corrupt_chance) && !built.bytes.is_empty() {
